@@ -38,21 +38,34 @@ class _Driver:
                 drv.calls.append({"res": s.idx, "ep": request.remote.idx, "code": int(request.code),
                                   "opts": [[int(o.number), list(o.encode())] for o in request.opt.option_list() if int(o.number) not in (23, 27)],
                                   "b1": blk(request.opt.block1), "b2": blk(request.opt.block2),
-                                  "payload": list(request.payload), "id": request.mid})
-                ev = drv.current
+                                  "payload": list(request.payload), "id": request.mid, "tok": list(request.token)})
+                ev = drv.current; my = drv.current_idx
+                if ev.get("defer"):
+                    import asyncio
+                    gate = asyncio.Event(); drv.gates[my] = gate
+                    await gate.wait()
+                    # what the handler sees when it looks at its request again after having awaited
+                    drv.after[my] = {"payload": list(request.payload), "b1": blk(request.opt.block1), "id": request.mid}
                 return aiocoap.Message(code=aiocoap.Code(ev["rcode"]), payload=body(ev["rseed"], ev["rlen"]))
         class PHandler(Handler, resource.PathCapable): pass
         class Ep(simnet.Addr):
             def __init__(s, idx, kind):
                 super().__init__("ep%d" % idx); s.idx = idx
                 s.maximum_payload_size = kind["mps"]; s.maximum_block_size_exp = kind["mbse"]
+                # the block key of a real UDP endpoint (transports/udp6.py: (sockaddr, pktinfo)): distinct ports, or with
+                # "shared_sockaddr" the same remote socket address reached on different local addresses (pktinfo)
+                from aiocoap.transports.udp6 import UDP6EndpointAddress
+                shared = endpoints[0].get("shared_sockaddr")
+                s.real = UDP6EndpointAddress(("2001:db8::1", 5683 if shared else 20000 + idx, 0, 0), drv, pktinfo=(bytes([idx]) * 20 if shared else None))
+            @property
+            def blockwise_key(s): return s.real.blockwise_key
         self.eps = [Ep(i, k) for i, k in enumerate(endpoints)]
         site = resource.Site()
         with self.loop.enter():
             self.res = [Handler(0), Handler(1), PHandler(2)]
         for r, p in zip(self.res, PREFIX): site.add_resource(list(p), r)
         self.ctx, self.tman, self.mman, self.mi = simnet.make_stack(self.loop, site)
-        self.calls = []; self.current = None
+        self.calls = []; self.current = None; self.current_idx = None; self.gates = {}; self.after = {}
     def sizes(self, r): return [len(r._block1._assemblies._items), len(r._block2._completes._items)]
     def request(self, idx, ev):
         aiocoap = self.aiocoap
@@ -66,7 +79,7 @@ class _Driver:
             if n != U_PATH: m.opt.add_option(aiocoap.OptionNumber(n).create_option(decode=bytes(v)))
         if ev["b1"] is not None: m.opt.block1 = tuple(ev["b1"])
         if ev["b2"] is not None: m.opt.block2 = tuple(ev["b2"])
-        self.calls = []; self.current = ev
+        self.calls = []; self.current = ev; self.current_idx = idx
         self.mi.take()
         ok = self.simnet.inject(self.loop, self.mman, m.encode(), self.eps[ev["ep"]])
         sent = self.mi.take()
@@ -78,6 +91,30 @@ class _Driver:
         out["resp"] = {"code": int(d.code), "b1": blk(d.opt.block1), "b2": blk(d.opt.block2), "payload": list(d.payload)}
         if d.token != m.token or remote != self.eps[ev["ep"]]: out["misrouted"] = True
         return out
+    def decode_sent(self, sent):
+        out = []
+        for t, remote, raw in sent:
+            d = self.aiocoap.Message.decode(raw, remote)
+            out.append({"for": (d.token[0] << 8 | d.token[1]) if len(d.token) == 2 else None,
+                        "resp": {"code": int(d.code), "b1": blk(d.opt.block1), "b2": blk(d.opt.block2), "payload": list(d.payload)}})
+        return out
+    def request_overlap(self, idx, ev):
+        """like request(), but the handler may still be waiting afterwards: 0 or 1 messages are sent"""
+        o = self.request(idx, dict(ev, con=False))
+        return o
+    def finish(self, of):
+        """let the handler invoked by event `of` return"""
+        self.calls = []; self.mi.take()
+        g = self.gates.pop(of, None)
+        if g is None: return {"resp": None, "n2": self.sizes(self.res[0])[1], "unknown": True}
+        with self.loop.enter(): g.set()
+        self.loop.drain()
+        sent = self.decode_sent(self.mi.take())
+        out = {"n2": self.sizes(self.res[0])[1], "after": self.after.get(of)}
+        mine = [x for x in sent if x["for"] == of]
+        out["resp"] = mine[0]["resp"] if len(mine) == 1 and len(sent) == 1 else None
+        if out["resp"] is None: out["n_sent"] = len(sent)
+        return out
     def advance(self, dt):
         self.loop.advance(dt)
         return {"sizes": [self.sizes(r) for r in self.res]}
@@ -88,7 +125,7 @@ def blk(b): return None if b is None else [int(b.block_number), bool(b.more), in
 class C06(fw.Property):
     id = "C06"
     coq_props = "Props/C06.v"
-    gen_jobs = ["block_kernels"]     # owned by translate/jobs/c05.py; used for the _extract_block / size / start tie (Proofs/C06Kernel.v)
+    gen_jobs = ["block_kernels", "c03_constants"]     # owned by translate/jobs/c05.py; used for the _extract_block / size / start tie (Proofs/C06Kernel.v)
     model_imports = ["Verif.Model.C06"]
     quick_budget = 400
     thorough_budget = 8000
@@ -112,11 +149,13 @@ class C06(fw.Property):
             "Every 5th case is a supersede scenario (rendering stored / complete answer pops it, mostly emptying the cache / stored again / idle chosen relative to the FIRST timer's deadline / NUM>0); "
             "idle times are also anchored at earlier events' time + T or 2T (+-1 us). Stream timeoutdict_ops (every 5th case): get/set/pop/advance histories over 3 keys on the real TimeoutDict vs Model drun, "
             "comparing returned values, keys held and the deadline of the pending timer after every op; oracle = lifetime bounds. "
+            "Streams overlapping_renderings (1 of 10; handlers await and return in any order, vs Model srun) and overlapping_uploads (1 of 10; oracle only: the request seen by an awaiting handler must not change). "
+            "BERT Block1 messages of 1-3 KiB; endpoints carry real UDP6 block keys (distinct ports, or one socket address with different pktinfo). "
             "thorough adds every sequence of length <= 4 over 8 Block1/idle letters, over 7 Block2/idle letters and over 8 TimeoutDict op letters.")
     trusted_base = ["hand-written Model/C06.v (validated by the block_sequences stream on every run)",
                     "harness: virtual-time loop (ideal timers), fake endpoints/transport, message codec of aiocoap used to put requests on the simulated wire",
                     "Site path stripping is mirrored by the harness (resource index + remaining Uri-Path), not modelled"]
-    assumptions = ["handlers are atomic: render() does not yield between being invoked and returning",
+    assumptions = ["main model (run/step, all history theorems): handlers are atomic — render() does not yield between being invoked and returning; overlapping handlers are covered by the schedule model srun (requests without Block1) and by the oracle-only stream overlapping_uploads, where /repo violates the property (known findings)",
                    "one endpoint object per blockwise_key; maximum_payload_size / maximum_block_size_exp constant per endpoint",
                    "option values canonical (minimal uint encoding), so value equality = byte equality"]
 
@@ -127,11 +166,32 @@ class C06(fw.Property):
     def impl(self, stream, inp):
         self.setup()
         if stream == "timeoutdict_ops": return self.impl_td(inp)
+        if stream in ("overlapping_renderings", "overlapping_uploads"): return self.impl_overlap(stream, inp)
         d = _Driver(inp["endpoints"])
         out = []
         for idx, ev in enumerate(inp["events"]):
             if ev["t"] == "adv": out.append(d.advance(ev["dt"]))
             else: out.append(d.request(idx, ev))
+        res = {"outputs": out}
+        if d.loop.exceptions: res["loop_exceptions"] = [str(c.get("exception") or c.get("message"))[:120] for c in d.loop.exceptions]
+        return res
+
+    def impl_overlap(self, stream, inp):
+        """handlers that await: `req` events with "defer" leave their handler pending until a `fin` event releases it"""
+        d = _Driver(inp["endpoints"]); out = []
+        for idx, ev in enumerate(inp["events"]):
+            if ev["t"] == "adv":
+                d.loop.advance(ev["dt"]); out.append({"n2": d.sizes(d.res[0])[1]})
+            elif ev["t"] == "fin":
+                o = d.finish(ev["of"])
+                if stream == "overlapping_renderings": o.pop("after", None)
+                out.append(o)
+            else:
+                o = d.request_overlap(idx, ev)
+                r = {"calls": o["calls"], "resp": o["resp"], "n2": o["sizes"][1]}
+                if ev.get("defer"): r = {"calls": o["calls"], "resp": o["resp"]}
+                elif stream == "overlapping_uploads": r["n1"] = o["sizes"][0]
+                out.append(r)
         res = {"outputs": out}
         if d.loop.exceptions: res["loop_exceptions"] = [str(c.get("exception") or c.get("message"))[:120] for c in d.loop.exceptions]
         return res
@@ -163,18 +223,32 @@ class C06(fw.Property):
     # ------------------------------------------------------------------ model
     def g_blk(self, b):
         return "None" if b is None else "(Some {| b_num := %s; b_more := %s; b_szx := %s |})" % (gz(b[0]), gbool(b[1]), gz(b[2]))
+    def g_req(self, idx, ev, k):
+        opts = glist(["(%s, %s)" % (gz(n), fw.gbytes(v)) for n, v in sorted_opts(ev["opts"])])
+        return ("{| m_remote := %s; m_mps := %s; m_mbse := %s; m_code := %s; m_opts := %s; m_block1 := %s; m_block2 := %s; "
+                "m_payload := mk_body %s %s; m_id := %s |}") % (gz(ev["ep"]), gz(k["mps"]), gz(k["mbse"]), gz(ev["code"]), opts,
+                self.g_blk(ev["b1"]), self.g_blk(ev["b2"]), gz(ev["pseed"]), gz(ev["plen"]), gz(idx + 1))
     def model(self, stream, inp):
         if stream == "timeoutdict_ops":
             ops = glist([{"get": "DGet %s", "pop": "DPop %s", "adv": "DAdv %s"}[o[0]] % gz(o[1]) if o[0] != "set" else "DSet %s %s" % (gz(o[1]), gz(o[2])) for o in inp["ops"]])
             return "drun MAX_TRANSMIT_WAIT_us (0, td_empty) %s" % ops
+        if stream == "overlapping_uploads": return None      # oracle only: the model has no aliasing between handler and spool
+        if stream == "overlapping_renderings":
+            k = inp["endpoints"][0]; evs = []
+            for idx, ev in enumerate(inp["events"]):
+                if ev["t"] == "adv": evs.append("SAdvance %s" % gz(ev["dt"]))
+                elif ev["t"] == "fin":
+                    b = inp["events"][ev["of"]]
+                    evs.append("SFinish %s {| p_code := %s; p_block1 := None; p_block2 := None; p_payload := mk_body %s %s |}" % (gz(ev["of"] + 1), gz(b["rcode"]), gz(b["rseed"]), gz(b["rlen"])))
+                else:
+                    req = self.g_req(idx, ev, k)
+                    evs.append(("SBegin %s %s" % (gz(idx + 1), req)) if ev.get("defer") else ("SLater %s" % req))
+            return "srun MAX_TRANSMIT_WAIT_us sstate_init %s" % glist(evs)
         evs = []
         for idx, ev in enumerate(inp["events"]):
             if ev["t"] == "adv": evs.append("Advance %s" % gz(ev["dt"])); continue
             k = inp["endpoints"][ev["ep"]]
-            opts = glist(["(%s, %s)" % (gz(n), fw.gbytes(v)) for n, v in sorted_opts(ev["opts"])])
-            req = ("{| m_remote := %s; m_mps := %s; m_mbse := %s; m_code := %s; m_opts := %s; m_block1 := %s; m_block2 := %s; "
-                   "m_payload := mk_body %s %s; m_id := %s |}") % (gz(ev["ep"]), gz(k["mps"]), gz(k["mbse"]), gz(ev["code"]), opts,
-                   self.g_blk(ev["b1"]), self.g_blk(ev["b2"]), gz(ev["pseed"]), gz(ev["plen"]), gz(idx + 1))
+            req = self.g_req(idx, ev, k)
             rend = "{| p_code := %s; p_block1 := None; p_block2 := None; p_payload := mk_body %s %s |}" % (gz(ev["rcode"]), gz(ev["rseed"]), gz(ev["rlen"]))
             evs.append("Request %s %s %s" % (fw.gnat(ev["res"]), req, rend))
         return "snd (run MAX_TRANSMIT_WAIT_us (server_init %s) %s)" % (fw.gnat(NRES), glist(evs))
@@ -185,13 +259,25 @@ class C06(fw.Property):
             outs = [{"got": o2(o["a"][0]), "keys": list(o["a"][1]), "due": o2(o["a"][2])} for o in p]
             return {"outputs": outs, "pending_timers": 0 if not outs or outs[-1]["due"] is None else 1}
         def ob(x): return None if x == "None" else [x["a"][0]["b_num"], x["a"][0]["b_more"], x["a"][0]["b_szx"]]
+        def call(c, res): return {"res": res, "ep": c["m_remote"], "code": c["m_code"], "opts": [[n, list(v)] for n, v in c["m_opts"]], "b1": ob(c["m_block1"]), "b2": ob(c["m_block2"]),
+                                  "payload": list(c["m_payload"]), "id": c["m_id"], "tok": [(c["m_id"] - 1) >> 8, (c["m_id"] - 1) & 255]}
+        def rs(r): return {"code": r["p_code"], "b1": ob(r["p_block1"]), "b2": ob(r["p_block2"]), "payload": list(r["p_payload"])}
+        if stream == "overlapping_renderings":
+            out = []
+            for o in p:
+                a = o["a"] if isinstance(o, dict) else []
+                if o["c"] == "SOBegin": out.append({"calls": [call(c, 0) for c in a[0]], "resp": None})
+                elif o["c"] == "SOFinish": out.append({"n2": a[1], "resp": None if a[0] == "None" else rs(a[0]["a"][0])} if a[0] != "None" else {"resp": None, "n2": a[1], "unknown": True})
+                elif o["c"] == "SOLater": out.append({"calls": [call(c, 0) for c in a[0]], "resp": rs(a[1]), "n2": a[2]})
+                else: out.append({"n2": a[0]})
+            return {"outputs": out}
         out = []
         for o, ev in zip(p, inp["events"]):
             if o["c"] == "OAdvance":
                 out.append({"sizes": [list(s) for s in o["a"][0]]}); continue
             calls, r, n1, n2 = o["a"]
             out.append({"calls": [{"res": ev["res"], "ep": c["m_remote"], "code": c["m_code"], "opts": [[n, list(v)] for n, v in c["m_opts"]],
-                                   "b1": ob(c["m_block1"]), "b2": ob(c["m_block2"]), "payload": list(c["m_payload"]), "id": c["m_id"]} for c in calls],
+                                   "b1": ob(c["m_block1"]), "b2": ob(c["m_block2"]), "payload": list(c["m_payload"]), "id": c["m_id"], "tok": [(c["m_id"] - 1) >> 8, (c["m_id"] - 1) & 255]} for c in calls],
                         "sizes": [n1, n2],
                         "resp": {"code": r["p_code"], "b1": ob(r["p_block1"]), "b2": ob(r["p_block2"]), "payload": list(r["p_payload"])}})
         return {"outputs": out}
@@ -201,6 +287,8 @@ class C06(fw.Property):
         if "harness_exception" in res: return ("C06:crash:" + res["where"], "driver raised %s: %s" % (res["harness_exception"], res.get("text")))
         if res.get("loop_exceptions"): return ("C06:loop-exception", "exception reached the event loop: %s" % res["loop_exceptions"][0])
         if stream == "timeoutdict_ops": return self.oracle_td(inp, res)
+        if stream == "overlapping_renderings": return self.oracle_overlap_r(inp, res)
+        if stream == "overlapping_uploads": return self.oracle_overlap_u(inp, res)
         T = T_US
         t = 0
         asm = {}     # key -> {"payload", "ok": time of last successful use, "any": time of last touch, "b2": block-0's Block2, "first": block-0 event}
@@ -212,7 +300,7 @@ class C06(fw.Property):
                     for name, table, col in (("assemblies", asm, 0), ("renderings", rend, 1)):
                         ents = [e for k, e in table.items() if k[0] == r and (col == 0 or e["stored"])]
                         hi = sum(1 for e in ents if t < e["any"] + 2 * T)
-                        lo = sum(1 for e in ents if t < e["ok"] + T)
+                        lo = sum(1 for e in ents if t < e["ok"] + T and not e.get("completed"))
                         n = o["sizes"][r][col]
                         if n > hi: return ("C06:state-not-discarded", "event %d: resource %d holds %d %s at t=%d but only %d may still be held (used within the last 2*MAX_TRANSMIT_WAIT and not superseded by a complete answer)" % (idx, r, n, name, t, hi))
                         if n < lo: return ("C06:state-lost-early", "event %d: resource %d holds %d %s at t=%d but %d were used within the last MAX_TRANSMIT_WAIT" % (idx, r, n, name, t, lo))
@@ -239,8 +327,19 @@ class C06(fw.Property):
                     dead = a is None or t >= a["any"] + 2 * T
                     alive = a is not None and t < a["ok"] + T
                     size_bad = more and not (len(pl) == size or (szx == 7 and len(pl) % size == 0))
+                    # BlockwiseTuple.is_valid_for_payload_size for M=0: payload <= size (BERT: anything)
+                    final_oversize = (not more) and szx != 7 and len(pl) > size
                     if a is not None:
                         exp = BAD_REQUEST if size_bad else (None if num * size == len(a["payload"]) else INCOMPLETE)
+                        if final_oversize and alive and resp["code"] != BAD_REQUEST:
+                            return ("C06:final-block-oversize-accepted", "%s: final block carries %d bytes for block size %d and is answered code %d instead of 4.00" % (where, len(pl), size, resp["code"]))
+                        if final_oversize and resp["code"] == BAD_REQUEST: exp = BAD_REQUEST        # rejected as the property demands
+                        # a COMPLETED assembly (its final block was handed to the handler) may or may not be kept by the spool: the property
+                        # says nothing about it, so a continuation of it may also be answered 4.08
+                        if a.get("completed") and resp["code"] == INCOMPLETE and exp != INCOMPLETE:
+                            del asm[k]
+                            if calls: return ("C06:handler-on-rejected-block", where)
+                            continue
                     if dead or (not alive and resp["code"] == INCOMPLETE and exp != INCOMPLETE):
                         if resp["code"] != INCOMPLETE:
                             return ("C06:unknown-or-expired-not-408", "%s: no live assembly, answered code %d" % (where, resp["code"]))
@@ -268,7 +367,7 @@ class C06(fw.Property):
                     return_sig = no_handler("C06:handler-on-intermediate-block")
                     if return_sig: return return_sig
                     continue
-                expect_body = a["payload"]; first = a["first"]
+                expect_body = a["payload"]; first = a["first"]; a["completed"] = True
                 if ev["b2"] is None: eff_b2 = a["b2"]
                 else: a["b2"] = ev["b2"]          # a final block's Block2 replaces the one remembered from earlier blocks
             # ---- the request (assembled or plain) reaches the Block2 stage
@@ -281,6 +380,8 @@ class C06(fw.Property):
                    [x for x in c["opts"] if is_key_opt(x[0])] != [list(map(list_or_int, x)) for x in [[n, v] for n, v in sorted_opts(first["opts"]) if is_key_opt(n)]]:
                     return ("C06:handler-wrong-transfer", "%s: handler saw endpoint/method/options of another transfer" % where)
                 if c["b1"] != ev["b1"]: return ("C06:handler-block1-mismatch", where)
+                if c["tok"] != [idx >> 8, idx & 255] or c["id"] != idx + 1:
+                    return ("C06:handler-token-mismatch", "%s: the request handed to the handler carries token %s / mid %s, not those of the block that completed it" % (where, c["tok"], c["id"]))
                 R = list(body(ev["rseed"], ev["rlen"]))
                 size = None
                 if eff_b2 is not None and (len(R) > bsize(eff_b2[2])): szx = eff_b2[2]
@@ -333,6 +434,78 @@ class C06(fw.Property):
                     where, start, start + size, len(r["body"]), start + size < len(r["body"]), len(resp["payload"]), resp["b2"], resp["code"]))
         return None
 
+    def oracle_overlap_r(self, inp, res):
+        """overlapping renderings of one key (idle times far below T): a NUM>0 request is served from the rendering made for the LATEST
+        block-0 request of its key once that request's handler has returned (4.08 if that rendering was answered whole); while the latest
+        one is still rendering the answer is unspecified"""
+        mps = inp["endpoints"][0]["mps"]; mbse = inp["endpoints"][0]["mbse"]
+        begun = {}     # key -> list of {"idx", "R", "code", "done", "chunked", "szx"}
+        by_idx = {}
+        for idx, (ev, o) in enumerate(zip(inp["events"], res["outputs"])):
+            where = "event %d %s" % (idx, {k: v for k, v in ev.items() if k in ("t", "of", "b2", "rlen", "dt")})
+            if ev["t"] == "adv": continue
+            if o.get("resp") and o["resp"]["code"] >= 160: return ("C06:5xx", "%s answered 5.xx" % where)
+            if ev["t"] == "fin":
+                e = by_idx.get(ev["of"])
+                if e is None or e["done"]: continue
+                e["done"] = True; r = o["resp"]
+                if r is None: return ("C06:no-single-response", "%s: %s messages" % (where, o.get("n_sent")))
+                b2 = e["b2"]; R = e["R"]
+                szx = b2[2] if (b2 is not None and len(R) > bsize(b2[2])) else ((b2[2] if b2 is not None else mbse) if len(R) > mps else None)
+                e["chunked"] = szx is not None
+                if szx is None:
+                    if r["code"] != e["code"] or r["payload"] != R or r["b2"] is not None: return ("C06:whole-response-altered", where)
+                else:
+                    size = 2 ** (szx + 4)
+                    if r["code"] != e["code"] or r["payload"] != R[:size] or r["b2"] != [0, len(R) > size, szx]: return ("C06:block2-wrong-slice", "%s: first block expected" % where)
+                continue
+            k = ckey(ev)
+            if ev.get("defer"):
+                if len(o["calls"]) != 1 or o["resp"] is not None: return ("C06:handler-not-invoked", "%s: calls %d" % (where, len(o["calls"])))
+                e = {"idx": idx, "R": list(body(ev["rseed"], ev["rlen"])), "code": ev["rcode"], "done": False, "chunked": None, "b2": ev["b2"]}
+                begun.setdefault(k, []).append(e); by_idx[idx] = e
+                continue
+            # NUM > 0
+            if o["calls"]: return ("C06:handler-on-later-block2", where)
+            r = o["resp"]; num, _, szx = ev["b2"]; size = 2 ** (szx + 4); start = num * size
+            def matches(e):
+                if start >= len(e["R"]): return r["code"] == BAD_REQUEST and r["b2"] is None
+                return r["code"] == e["code"] and r["payload"] == e["R"][start:start + size] and r["b2"] == [num, start + size < len(e["R"]), szx]
+            lst = begun.get(k, [])
+            if not lst:
+                if r["code"] != INCOMPLETE: return ("C06:block2-unknown-not-408", where)
+                continue
+            L = lst[-1]
+            if not L["done"]:
+                if r["code"] == INCOMPLETE or any(matches(e) for e in lst): continue
+                return ("C06:block2-wrong-slice", "%s: matches no rendering of the key" % where)
+            if L["chunked"] and matches(L): continue
+            if not L["chunked"] and r["code"] == INCOMPLETE: continue
+            older = [e for e in lst[:-1] if matches(e)]
+            if older:
+                return ("C06:overlap-older-rendering-served", "%s: the latest block-0 request of the key is event %d (handler returned), but the block is a slice of the rendering made for the EARLIER request of event %d" % (where, L["idx"], older[-1]["idx"]))
+            if L["chunked"] and r["code"] == INCOMPLETE:
+                return ("C06:overlap-latest-rendering-lost", "%s: the rendering of the latest block-0 request (event %d) was stored but is gone: an earlier request's handler returned later and evicted/replaced it" % (where, L["idx"]))
+            return ("C06:block2-wrong-slice", where)
+        return None
+
+    def oracle_overlap_u(self, inp, res):
+        """a handler that awaits must find its request unchanged afterwards, and the answer to a final block echoes that block's Block1 option"""
+        for idx, (ev, o) in enumerate(zip(inp["events"], res["outputs"])):
+            if ev["t"] != "fin" or o.get("unknown"): continue
+            b = inp["events"][ev["of"]]; where = "event %d (handler of event %d, Block1 %s, returns)" % (idx, ev["of"], b["b1"])
+            r = o["resp"]
+            if r is None: return ("C06:no-single-response", "%s: %s messages" % (where, o.get("n_sent")))
+            if r["code"] >= 160: return ("C06:5xx", where)
+            call = res["outputs"][ev["of"]]["calls"]
+            if len(call) != 1: continue
+            a = o.get("after")
+            if a is not None and (a["payload"] != call[0]["payload"] or a["b1"] != call[0]["b1"]):
+                return ("C06:handler-request-mutated", "%s: the request object handed to the handler had %d bytes / Block1 %s at invocation and %d bytes / Block1 %s after the await (a further block was appended in place)" % (
+                    where, len(call[0]["payload"]), call[0]["b1"], len(a["payload"]), a["b1"]))
+            if r["b1"] != b["b1"]: return ("C06:response-block1-mismatch", "%s: response Block1 %s" % (where, r["b1"]))
+        return None
+
     def oracle_td(self, inp, res):
         """TimeoutDict lifetime: an entry is held while less than T passed since its last use (assignment or successful lookup,
         since its last pop), it is gone 2T after, a lookup returns what was assigned last, a pop removes"""
@@ -361,6 +534,12 @@ class C06(fw.Property):
         return None
 
     def nontrivial(self, stream, inp, res):
+        if stream in ("overlapping_renderings", "overlapping_uploads"):
+            pend = 0; overlap = False
+            for ev in inp["events"]:
+                if ev["t"] == "req" and ev.get("defer"): pend += 1; overlap = overlap or pend > 1
+                elif ev["t"] == "fin": pend -= 1
+            return fw.jdump([stream, inp]) if overlap else None
         if stream == "timeoutdict_ops":
             outs = res.get("outputs", [])
             expired = any(op[0] == "adv" and i > 0 and len(o["keys"]) < len(outs[i - 1]["keys"]) for i, (op, o) in enumerate(zip(inp["ops"], outs)))
@@ -376,7 +555,9 @@ class C06(fw.Property):
     # ------------------------------------------------------------------ generator
     def gen_cases(self, tier, rng, n):
         for k in range(n):
-            if k % 5 == 4: yield "timeoutdict_ops", gen_td_case(rng)
+            if k % 10 == 7: yield "overlapping_renderings", gen_overlap_renderings(rng)
+            elif k % 10 == 3: yield "overlapping_uploads", gen_overlap_uploads(rng)
+            elif k % 5 == 4: yield "timeoutdict_ops", gen_td_case(rng)
             elif k % 5 == 2: yield "block_sequences", gen_supersede_case(rng)
             else: yield "block_sequences", gen_case(rng)
         if tier == "thorough":
@@ -393,6 +574,11 @@ class C06(fw.Property):
                 for L in range(1, 5):
                     for seq in itertools.product(alpha, repeat=L):
                         yield "block_sequences", {"endpoints": ep, "events": [dict(e) for e in seq] + [{"t": "adv", "dt": 0}]}
+            bert = [rq(PUT, b1=[0, True, 7], plen=2048, pseed=1), rq(PUT, b1=[2, True, 7], plen=1024, pseed=2), rq(PUT, b1=[3, True, 7], plen=3072, pseed=3),
+                    rq(PUT, b1=[3, True, 7], plen=1000, pseed=4), rq(PUT, b1=[1, True, 7], plen=1024, pseed=5), rq(PUT, b1=[6, False, 7], plen=10, pseed=6), rq(PUT, b1=[3, False, 7], plen=2000, pseed=7)]
+            for L in range(1, 4):
+                for seq in itertools.product(bert, repeat=L):
+                    yield "block_sequences", {"endpoints": [{"mps": 1152, "mbse": 7}], "events": [dict(e) for e in seq] + [{"t": "adv", "dt": 0}]}
             A3 = [["set", 0, 1], ["set", 1, 2], ["get", 0], ["pop", 0], ["pop", 1], ["adv", T_US // 2], ["adv", T_US - 1], ["adv", T_US]]
             for L in range(1, 5):
                 for seq in itertools.product(A3, repeat=L):
@@ -426,7 +612,7 @@ def volatile_opts(rng, code):
 def plan_upload(rng, ep, res, kind):
     """a Block1 transfer: list of request events (without perturbation)"""
     code = rng.choice([PUT, POST, PUT, FETCH])
-    szx = rng.choice([0, 0, 0, 1, 1, 2]) if rng.random() < 0.97 else rng.choice([6, 7])
+    szx = rng.choice([0, 0, 0, 1, 1, 2]) if rng.random() < 0.96 else rng.choice([6, 7, 7])
     size = bsize(szx)
     nblocks = rng.choice([1, 2, 2, 3, 3, 4, 5]) if szx < 6 else rng.choice([1, 2])
     last = rng.choice([0, 1, size // 2, size - 1, size, size])
@@ -434,14 +620,18 @@ def plan_upload(rng, ep, res, kind):
     rlen = rng.choice(RLENS) if rng.random() < 0.5 else rng.choice([0, 2, 5])
     b2 = None
     if rng.random() < 0.3: b2 = [0, False, rng.choice([0, 1, 2])]
-    steps = []
+    steps = []; num = 0
+    if szx == 7: nblocks = rng.choice([1, 2, 2, 3])
     for i in range(nblocks):
         more = i < nblocks - 1
+        plen = size if more else last
+        if szx == 7 and more: plen = size * rng.choice([1, 1, 2, 3])       # BERT: several KiB per message, NUM advances by plen/1024
         ev = {"t": "req", "ep": ep, "res": res, "code": code, "con": rng.random() < 0.3, "opts": opts + volatile_opts(rng, code),
-              "b1": [i, more, szx], "b2": b2 if (not more or rng.random() < 0.2) else None,
-              "pseed": rng.randint(0, 255), "plen": size if more else last,
+              "b1": [num, more, szx], "b2": b2 if (not more or rng.random() < 0.2) else None,
+              "pseed": rng.randint(0, 255), "plen": plen,
               "rcode": rng.choice([68, 68, 65, 69]), "rseed": rng.randint(0, 255), "rlen": rlen}
         steps.append(ev)
+        num += max(1, plen // 1024) if szx == 7 else 1
     # follow-up Block2 requests for the response
     if b2 is not None and rlen > bsize(b2[2]):
         for j in range(1, min(4, -(-rlen // bsize(b2[2]))) + rng.choice([0, 0, 1])):
@@ -533,6 +723,53 @@ def gen_td_case(rng):
     ops += [["get", 0], ["get", 1], ["get", 2], ["adv", rng.choice([0, T_US, 2 * T_US])]]
     return {"ops": ops}
 
+def gen_overlap_renderings(rng):
+    """2-4 block-0 / Block2-less requests of one key (sometimes a second key) whose handlers await; they return in any order;
+    NUM>0 requests in between and at the end; idle times far below T"""
+    kind = dict(rng.choice(ENDPOINT_KINDS[:2])); code = rng.choice([GET, GET, FETCH]); szx = rng.choice([0, 0, 1])
+    size = bsize(szx); keys = [[], [[U_QUERY, list(b"a=1")]]]
+    events = []; pending = []
+    def later(): return {"t": "req", "ep": 0, "res": 0, "code": code, "con": False, "opts": rng.choice(keys[:1] * 4 + keys[1:]), "b1": None,
+                         "b2": [rng.choice([1, 1, 2, 3]), False, szx], "pseed": 0, "plen": 0, "rcode": 69, "rseed": 0, "rlen": 0}
+    for _ in range(rng.choice([2, 2, 3, 3, 4])):
+        big = rng.random() < 0.75
+        events.append({"t": "req", "defer": True, "ep": 0, "res": 0, "code": code, "con": False, "opts": rng.choice(keys[:1] * 4 + keys[1:]), "b1": None,
+                       "b2": rng.choice([[0, False, szx], [0, False, szx], None, [0, False, 6]]) if not big else [0, False, szx], "pseed": 0, "plen": 0,
+                       "rcode": rng.choice([69, 69, 132]), "rseed": rng.randint(0, 255), "rlen": rng.choice([n for n in RLENS if n > size]) if big else rng.choice([1, size])})
+        pending.append(len(events) - 1)
+        while pending and rng.random() < 0.4:
+            events.append({"t": "fin", "of": pending.pop(rng.randrange(len(pending)))})
+            if rng.random() < 0.5: events.append(later())
+        if rng.random() < 0.2: events.append({"t": "adv", "dt": rng.choice([0, 1, 1_000_000])})
+    order = rng.random()
+    while pending:
+        events.append({"t": "fin", "of": pending.pop(0 if order < 0.25 else (-1 if order < 0.6 else rng.randrange(len(pending))))})
+        if rng.random() < 0.5: events.append(later())
+    events += [later(), later(), {"t": "adv", "dt": 0}]
+    return {"endpoints": [kind], "events": events}
+
+def gen_overlap_uploads(rng):
+    """a Block1 transfer whose final block's handler awaits while further blocks of the same key arrive (a further final block, a restart at block 0, a gap)"""
+    kind = dict(ENDPOINT_KINDS[0]); code = rng.choice([PUT, POST]); szx = rng.choice([0, 0, 1]); size = bsize(szx)
+    def blk1(num, more, plen, defer=False):
+        return {"t": "req", "ep": 0, "res": 0, "code": code, "con": False, "opts": [], "b1": [num, more, szx], "b2": None, "pseed": rng.randint(0, 255), "plen": plen,
+                "rcode": 68, "rseed": rng.randint(0, 255), "rlen": rng.choice([0, 2, 5]), **({"defer": True} if defer else {})}
+    events = [blk1(0, True, size)]
+    n = rng.choice([1, 1, 2])
+    for i in range(1, n): events.append(blk1(i, True, size))
+    events.append(blk1(n, False, size, defer=True)); first = len(events) - 1; pending = [first]
+    for _ in range(rng.choice([1, 1, 2])):
+        r = rng.random()
+        if r < 0.5: n += 1; events.append(blk1(n, False, rng.choice([1, size // 2, size]), defer=rng.random() < 0.6))
+        elif r < 0.7: n += 1; events.append(blk1(n, True, size))
+        elif r < 0.85: events.append(blk1(0, True, size)); n = 0
+        else: events.append(blk1(n + 2, False, 3))
+        if events[-1].get("defer"): pending.append(len(events) - 1)
+        if rng.random() < 0.3 and pending: events.append({"t": "fin", "of": pending.pop(0)})
+    while pending: events.append({"t": "fin", "of": pending.pop(rng.randrange(len(pending)))})
+    events.append({"t": "adv", "dt": 0})
+    return {"endpoints": [kind], "events": events}
+
 def gen_supersede_case(rng):
     """a stored rendering is superseded by a complete answer (Block2Cache pops it, often leaving the cache empty), a new rendering is stored,
     and a later block is requested at an idle time chosen relative to the FIRST timer's deadline t0+T"""
@@ -574,6 +811,7 @@ def gen_supersede_case(rng):
 def gen_case(rng):
     nep = rng.choice([1, 1, 2, 2, 3])
     endpoints = [dict(rng.choice(ENDPOINT_KINDS[:4]) if rng.random() < 0.95 else ENDPOINT_KINDS[4]) for _ in range(nep)]
+    if nep > 1 and rng.random() < 0.3: endpoints[0]["shared_sockaddr"] = True
     ntransfers = rng.choice([1, 2, 2, 3, 3, 4])
     same_target = rng.random() < 0.5
     res0 = rng.randrange(NRES)
